@@ -122,6 +122,9 @@ type UserSpec struct {
 	Username   string       `json:"username,omitempty"`
 	UserIDAttr string       `json:"user_id_attr,omitempty"`
 	Custom     []CustomAttr `json:"custom,omitempty"`
+	// Overridden: the user store fills in defaults first and then overrides each of them with the user's own value (every
+	// setter is called twice; the record is what the last call says).
+	Overridden bool `json:"overridden,omitempty"`
 }
 
 // RequestSpec is a stored authentication request.
